@@ -90,6 +90,11 @@ type World struct {
 	Silent bool
 	// NoObs: do not project the views (events recorded inside a concurrent phase; only results are judged)
 	NoObs bool
+	// Blind (with NoObs): a history during which the harness never looks at the views' contents - looking means
+	// Slice(0, Capacity()) + Sample on every view after every call, which would initialise (or flush) whatever a
+	// buffer keeps lazily before the next call can run into it. Only cheap getters are logged for Append (the
+	// specification needs the capacity a growing Append chose); one Observe at the end compares everything.
+	Blind bool
 }
 
 func NewWorld(path string) (*World, error) {
@@ -159,6 +164,11 @@ func (w *World) emit(e *Event) {
 		e.Obs, e.Pf = w.project()
 	} else {
 		e.Obs = []ViewObs{}
+		if w.Blind && e.Op == "Append" {
+			for _, v := range w.Views {
+				e.Obs = append(e.Obs, ViewObs{Len: v.Len(), Cap: v.Cap(), Length: v.Length(), Capacity: v.Capacity(), Ch: v.Channels(), Bd: v.BitDepth(), Data: []int64{}})
+			}
+		}
 	}
 	if w.NoObs && e.preObs == nil {
 		e.Noobs = 1
